@@ -27,6 +27,9 @@ def bases(ctx, tier):
     # (no entry inside d matches it, so d's own hashes do not depend on which run - its own or the parent's - wrote them)
     t2 = dict(T); t2["keep.log"] = b"sealed by the root history"
     B["nested-own-pattern"] = (ops.build(ctx, t2, [c("d", ["xxh64"], i=["*.log"]), c("", ["xxh64"])], expect=[0, 0]), True)
+    # order-dependent patterns recorded in the history (verify -dh reads them from there)
+    t3 = dict(T); t3["keep.txt"] = b"re-included"; t3["other.txt"] = b"excluded"
+    B["negated-pattern"] = (ops.build(ctx, t3, [c("", ["xxh64"], i=["*.txt", "!keep.txt", "!d/c.txt"])], expect=[0]), True)
     B["n-generation-after-normal"] = (ops.build(ctx, T, [c("", ["xxh64"]), c("", ["xxh64"], n=True)], expect=[0, 0]), True)
     B["n-generation-before-normal"] = (ops.build(ctx, T, [c("", ["xxh64"], n=True), c("", ["xxh64"])], expect=[0, 0]), True)
     B["nested-under-n-only-root"] = (ops.build(ctx, T, [c("d", ["md5"]), c("", ["xxh64"], n=True)], expect=[0, 0]), False)
@@ -100,9 +103,20 @@ def eval_case(ctx, case):
     if not case["muts"]:
         if res.exit != 0:
             v.append(Viol(PROP, "false-alarm", sig, f"{desc}: exit {res.exit} on the unchanged tree\n{res.err[-600:]}", case))
+    elif case.get("pats") and visible(case["base"], case["pats"]) == visible(t, case["pats"]):
+        # the change touches only entries that the recorded patterns exclude: nothing the sealed hashes cover has changed
+        if res.exit != 0:
+            v.append(Viol(PROP, "false-alarm", sig, f"{desc}: exit {res.exit}, the change is confined to excluded entries\n{res.err[-600:]}", case))
     elif case["has_dirhashes"] and res.exit != 12:
         v.append(Viol(PROP, "change-not-detected", sig, f"{desc}: exit {res.exit}, expected 12\n{res.err[-400:]}", case))
     return v
+
+
+def visible(tree, pats):
+    return {p: c for p, c in ref.media(tree).items() if not ref.ignored(pats, p, c is DIR)}
+
+
+PATS = {"negated-pattern": ["*.txt", "!keep.txt", "!d/c.txt"]}
 
 
 def work(ctx, case):
@@ -152,10 +166,10 @@ def main(tier, seed):
             for h in hopts:
                 if h is not None and len(ms) > 1:
                     continue
-                cases.append({"name": name, "base": tree, "muts": ms, "has_dirhashes": has, "h": h})
+                cases.append({"name": name, "base": tree, "muts": ms, "has_dirhashes": has, "pats": PATS.get(name), "h": h})
                 if h is None and len(ms) <= 1:   # the root folder as a user may spell it: trailing separator, /., '.' from inside, ./name
                     for sp in ("slash", "slashdot", "dot", "rel", "symlink"):
-                        cases.append({"name": name, "base": tree, "muts": ms, "has_dirhashes": has, "h": h, "spell": sp})
+                        cases.append({"name": name, "base": tree, "muts": ms, "has_dirhashes": has, "pats": PATS.get(name), "h": h, "spell": sp})
     res = eng.pmap(work, cases)
     for case, vs in zip(cases, res):
         eng.add_viols(vs)
